@@ -16,7 +16,9 @@ SPEC = dict(
          'stalled never-stop fans, command timeouts; per-operation plans (500 quick / 6000 thorough): a fault on exactly the i-th hooked file operation of a cycle for every i up to 25, both kinds, '
          'pairs within a cycle, "device gone from operation i on" (so that the writes of the restore fail too); stale-write shapes (80): a failed or ignored PWM write exactly in the cycle in which the '
          'request reaches a value at which it stays (saturated curve, direct algorithm) on fans whose PWM cannot be read back (cmd fan without getPwm, file/hwmon fan with an unreadable pwm file) or with a read fault in the next cycle. '
-         'Observer clause "keeps regulating with the last good data": every cycle that ended without error and without a PWM-write fault (per-operation plans: without any fault) must leave the device at the PWM-map output of that cycle\'s request. daemon: process-level runs of the real RunDaemon (see C03) where a panic would be in another goroutine '
+         'Garbage reads return one of 19 file shapes / 12 command-output shapes (empty, whitespace-only, "\\n", "abc", "12abc", "1 2", "-", "0x10", overlong digits, NUL bytes, 5000 digits, NaN, Inf ...) chosen from the case selector; '
+         'whitespace-only content is forced for every file read kind (sensor, rpm, pwm, pwm_enable read-back; regime and per-operation). Observer clause "with the last good data": the sensor-monitor poll (the real updateSensor, all three '
+         'sensor backends) of a cycle with a sensor fault leaves the moving average bit-identical, a good poll moves it by UpdateSimpleMovingAvg of the value shown. Observer clause "keeps regulating with the last good data": every cycle that ended without error and without a PWM-write fault (per-operation plans: without any fault) must leave the device at the PWM-map output of that cycle\'s request. daemon: process-level runs of the real RunDaemon (see C03) where a panic would be in another goroutine '
          '(scenario 5: a controller fails its initialisation; 6/7: the sensor of a PID curve fails while regulating). ctlrun: the real Run in-process (see C03), incl. a control '
          'error while the device directory has vanished, so that the writes of restorePwmEnabled fail too (a panic inside Run is recovered and reported). Non-trivial = at least one fault in the plan; distinct = distinct case terms.',
     assumptions=[
